@@ -582,6 +582,7 @@ func (c *Client) send(dest *net.UDPAddr, msg *dhcpv4.DHCPv4) (resp <-chan *dhcpv
 		// the lock and remove the XID from the pending transaction
 		// map.
 		close(done)
+		verifPoint("cancel.gap")
 
 		c.pendingMu.Lock()
 		if p, ok := c.pending[msg.TransactionID]; ok {
